@@ -569,6 +569,17 @@ def r07_12(run, model):
             c = S.norm_ws(run.facts.text(MONO, iff["cond"]["sp"]))
             if re.search(r"(len\(\)|depth|size|count)\w*\s*(>=|>)|\b[A-Z][A-Z_]{3,}\b", c):
                 limits.append(c[:60])
+    tm = model.fn("ensure_instance", MONO, impl="TypeMono")
+    tlimits = []
+    for fn_ in (tm, model.fn("collapse_type_apps", MONO, impl="TypeMono")):
+        for iff in S.find(fn_.body, "If"):
+            c = S.norm_ws(run.facts.text(MONO, iff["cond"]["sp"]))
+            if re.search(r"(len\(\)|depth|size|count)\w*\s*(>=|>)|\b[A-Z][A-Z_]{3,}\b", c):
+                tlimits.append(c[:60])
+    run.ob("R07.12", "TypeMono::ensure_instance|type specialisation is bounded", bool(tlimits), site(MONO, tm.node["sp"]),
+           f"limit tests in TypeMono::ensure_instance / collapse_type_apps: {tlimits or 'none'}",
+           witness="enum Nested[T] { Flat(T), Deep(Nested[Vec[T]]) } with one Nested::Flat(1): no function is generic, the definition pass "
+                   "instantiates Nested[Vec[int32]], Nested[Vec[Vec[int32]]], … until the stack overflows")
     run.ob("R07.12", "Ctx::ensure_instance|specialisation is bounded", bool(limits), site(MONO, f.node["sp"]),
            f"limit tests in ensure_instance / the work loop: {limits or 'none'}",
            witness="fn grow[T](x: T, n: int32) -> int32 { if n == 0 { 0 } else { grow((x, x), n - 1) } } is accepted; mono queues grow[(T,T)], "
